@@ -193,6 +193,7 @@ Lemma good_new_ref x (s : st) g :
   fr_file x < s_nexth pfs s -> fr_node x < nlen s ->
   (forall p, fr_parent x = Some p -> fr_xattrOf x = None /\ tref s p /\ p < rlen s) ->
   (fr_parent x = None -> fr_xattrOf x = None -> fr_node x = 0) ->
+  (forall p, fr_parent x = Some p -> pn_deleted (gnode s (fr_node x)) = false -> nonf s p) ->
   match fr_xattrOf x with
   | None => (forall q, q < rlen s -> tref s q -> fr_file (gref s q) <> fr_file x) /\
             (pn_deleted (gnode s (fr_node x)) = false ->
@@ -203,7 +204,7 @@ Lemma good_new_ref x (s : st) g :
   end ->
   Good (snd (new_ref pfs x s)) g.
 Proof.
-  intros G Hf Hn Hp Hroot Hx.
+  intros G Hf Hn Hp Hroot Hpn Hx.
   destruct (new_ref_facts pfs x s) as (_ & L1 & Gn & Go & _). cbv zeta in *.
   set (s' := snd (new_ref pfs x s)) in *. fold (rlen s) in *. fold (rlen s') in L1.
   assert (BE : s_be pfs s' = s_be pfs s) by reflexivity.
@@ -253,6 +254,11 @@ Proof.
   - intros r Hr Ep T. destruct (CASE r Hr) as [Ho | ->].
     + rewrite (Go r Ho) in Ep |- *. destruct (OLD r Ho) as (_ & B & _). apply (G_root _ _ G); tauto.
     + unfold tref in T. rewrite Gn in Ep, T |- *. cbn [fr_xattrOf fr_parent fr_node fr_with_refs] in *. auto.
+  - intros r p Hr Lv N E. destruct (CASE r Hr) as [Ho | ->].
+    + rewrite (Go r Ho) in E. destruct (OLD r Ho) as (B1 & _ & B3 & _). destruct (G_parent _ _ G r p Ho E) as (_ & _ & Lp).
+      destruct (OLD p Lp) as (_ & _ & B3' & _). apply B3'. apply (G_pnonf _ _ G r p Ho); tauto.
+    + rewrite Gn in E. cbn [fr_parent fr_with_refs] in E. destruct (Hp p E) as (_ & _ & Lp). destruct (OLD p Lp) as (_ & _ & B3' & _).
+      apply B3'. apply (Hpn p E). unfold nonf, is_deleted in N. rewrite Gn in N. exact N.
   - intros n. rewrite GN. apply (G_keys _ _ G).
   - pose proof (G_len _ _ G). lia.
 Qed.
@@ -270,12 +276,13 @@ Lemma pnf_spec n nm (s : st) : n < nlen s -> NT s ->
   let c := fst (path_node_for pfs n nm s) in
   let s' := snd (path_node_for pfs n nm s) in
   qstep s s' /\ nch s' n nm = Some c /\ c < nlen s' /\ NT s' /\ s_nexth pfs s' = s_nexth pfs s /\ s_be pfs s' = s_be pfs s /\
-  s_refs pfs s' = s_refs pfs s /\ (pn_deleted (gnode s n) = false -> nch s n nm = None -> pn_deleted (gnode s' c) = false).
+  s_refs pfs s' = s_refs pfs s /\ (pn_deleted (gnode s n) = false -> nch s n nm = None -> pn_deleted (gnode s' c) = false) /\
+  (forall a y c', nch s a y = Some c' -> nch s' a y = Some c').
 Proof.
   intros Hn NTs. unfold path_node_for. fold (gnode s n).
   destruct (alookup Nat.eqb nm (pn_nodes (gnode s n))) as [c|] eqn:E; cbn [fst snd].
   - split; [apply qstep_refl|]. split; [exact E|]. split; [eapply (N_bound _ NTs); exact E|]. split; [exact NTs|].
-    split; [reflexivity|]. split; [reflexivity|]. split; [reflexivity|].
+    split; [reflexivity|]. split; [reflexivity|]. split; [reflexivity|]. split; [|auto].
     intros _ HX. unfold nch in HX. rewrite E in HX. discriminate.
   - set (c := length (s_nodes pfs s)). set (s0 := with_nodes pfs (s_nodes pfs s ++ [empty_node]) s).
     set (X := pn_with_nodes (gnode s n) (aset Nat.eqb nm c (pn_nodes (gnode s n)))).
@@ -311,7 +318,7 @@ Proof.
       * intros K m. rewrite GN. destruct (m =? n); [|apply K]. unfold X. apply pkeys_with_nodes; [apply K|].
         apply (gaset_nodup Nat.eqb Nat.eqb_spec). apply K.
     + split; [exact Hnew|]. split; [unfold c, nlen in *; lia|]. split; [exact NT'|].
-      split; [reflexivity|]. split; [reflexivity|]. split; [reflexivity|].
+      split; [reflexivity|]. split; [reflexivity|]. split; [reflexivity|]. split; [|eapply add_ext; eauto].
       intros _ _. rewrite DEL. unfold get_node. rewrite nth_overflow by (unfold c; lia). reflexivity.
 Qed.
 
@@ -598,11 +605,13 @@ Proof.
   assert (G4 : Good (snd (new_ref_handover pfs wr x s2)) g).
   { unfold new_ref_handover. set (s2' := with_held pfs (remove_one wr (s_held pfs s2)) s2).
     assert (G2' : Good s2' g) by (eapply shrink_good; [apply sh_with_held | exact G2]).
-    apply good_new_ref; [exact G2' | | | | intros [=] |].
+    apply good_new_ref; [exact G2' | | | | intros [=] | |].
     - cbn. change (s_nexth pfs s2') with (s_nexth pfs s2). lia.
     - cbn. exact B2.
     - intros p [= <-]. split; [reflexivity|]. change (rlen s2') with (rlen s2). rewrite RL2. split; auto.
       unfold tref. change (gref s2' wr) with (gref s2 wr). rewrite GR2. exact Tw.
+    - intros p [= <-] _. unfold nonf, is_deleted. change (gref s2' wr) with (gref s2 wr). change (get_node pfs s2') with (gnode s2).
+      rewrite GR2, (S_del _ _ SH02). exact Nw.
     - cbn [fr_xattrOf x]. split.
       + intros q Hq Tq. change (gref s2' q) with (gref s2 q). rewrite GR2. cbn [fr_file x].
         change (rlen s2') with (rlen s2) in Hq. rewrite RL2 in Hq. pose proof (G_file _ _ G q Hq). lia.
@@ -651,11 +660,14 @@ Proof.
   assert (G2 : Good (snd (new_ref_inc pfs x s1)) g).
   { unfold new_ref_inc.
     assert (GN : Good (snd (new_ref pfs x s1)) g).
-    { apply good_new_ref; [exact G1 | | | | cbn; intros Ep _; apply (G_root _ _ G ref Lr Ep EX) |].
+    { apply good_new_ref; [exact G1 | | | | cbn; intros Ep _; apply (G_root _ _ G ref Lr Ep EX) | |].
       - cbn. lia.
       - cbn. pose proof (G_nbound _ _ G ref Lr). pose proof (S_nlen _ _ SH1). unfold x0. lia.
       - intros p Hp. cbn in Hp. destruct (G_parent _ _ G ref p Lr Hp) as (_ & Tp & Lp).
         split; [reflexivity|]. rewrite RL1. split; auto. unfold tref. rewrite GR1. exact Tp.
+      - intros p Hp Dn. cbn in Hp, Dn.
+        assert (Nf : nonf s ref). { unfold nonf, is_deleted. fold x0. rewrite <- (S_del _ _ SH1). exact Dn. }
+        pose proof (G_pnonf _ _ G ref p Lr Lvr Nf Hp) as Np. unfold nonf, is_deleted in *. rewrite GR1, (S_del _ _ SH1). exact Np.
       - cbn [fr_xattrOf x]. split.
         + intros q Hq Tq. rewrite GR1. cbn [fr_file x]. rewrite RL1 in Hq. pose proof (G_file _ _ G q Hq). lia.
         + cbn [fr_node fr_file x]. intros Dn.
@@ -755,7 +767,7 @@ Proof.
     assert (Gt : Good s1' g) by (eapply shrink_good; [apply sh_take_handle | exact G1]).
     set (x := mkref (s_nexth pfs s) 0 false 0 MNone 0 None None XNone).
     assert (G2 : Good (snd (new_ref pfs x s1')) g).
-    { apply good_new_ref; [exact Gt | | | | reflexivity |].
+    { apply good_new_ref; [exact Gt | | | | reflexivity | intros p [=] |].
       - cbn. lia.
       - cbn. apply (N_pos _ (G_nt _ _ Gt)).
       - intros p [=].
@@ -896,10 +908,11 @@ Proof.
     assert (G3 : Good (snd (new_ref_inc pfs x s2)) g).
     { unfold new_ref_inc.
       assert (GN : Good (snd (new_ref pfs x s2)) g).
-      { apply good_new_ref; [exact G2 | | | | intros [=] |].
+      { apply good_new_ref; [exact G2 | | | | intros [=] | |].
         - cbn. rewrite H2. cbn. lia.
         - cbn. exact B2.
         - intros p [= <-]. split; [reflexivity|]. rewrite RL2. split; auto. unfold tref. rewrite GR2. exact Tr.
+        - intros p [= <-] _. unfold nonf, is_deleted in *. rewrite GR2, (S_del _ _ SH02). exact Nf.
         - cbn [fr_xattrOf x]. split.
           + intros q Hq Tq. rewrite GR2. cbn [fr_file x]. rewrite RL2 in Hq. pose proof (G_file _ _ G q Hq). lia.
           + cbn [fr_node fr_file x]. intros Dcn.
@@ -951,7 +964,7 @@ Proof.
     assert (G2 : Good (snd (new_ref_inc pfs x s1)) g).
     { unfold new_ref_inc.
       assert (GN : Good (snd (new_ref pfs x s1)) g).
-      { apply good_new_ref; [exact G1 | | | | intros _ [=] |].
+      { apply good_new_ref; [exact G1 | | | | intros _ [=] | intros p [=] |].
         - cbn. pose proof (G_file _ _ G r Lr). pose proof (S_nexth _ _ SH1). lia.
         - cbn. pose proof (G_nbound _ _ G r Lr). pose proof (S_nlen _ _ SH1). lia.
         - intros p [=].
